@@ -526,3 +526,85 @@ def probe_merge():
         it._verif_probe = True
         STATE["attached"].append((R.CoolerMerger, "__iter__", orig_iter))
         R.CoolerMerger.__iter__ = it
+
+
+def probe_coarsen():
+    """_greedy_prune_partition / CoolerCoarsener.__init__: pruned edges are a subset of the
+    input edges with the end points kept; no coarse row is split (every edge is the pixel
+    offset of an old bin whose rank within its chromosome is a multiple of the factor)."""
+    import cooler._reduce as R
+
+    def f_gp(orig):
+        @functools.wraps(orig)
+        def w(edges, maxlen):
+            res = orig(edges, maxlen)
+            try:
+                _count("greedy_prune")
+                e = np.asarray(edges)
+                r = np.asarray(res)
+                ok = (len(r) >= 1 and r[0] == e[0] and r[-1] == e[-1] and bool(np.all(np.isin(r, e)))
+                      and bool(np.all(np.diff(r) > 0)) if len(r) > 1 else (len(r) == 1 and e[0] == e[-1]))
+                if not ok:
+                    pfail("greedy_prune", "C08", "probe:prune-not-subset-or-endpoints-lost",
+                          "pruned partition is not an increasing subset of the input edges keeping both end points",
+                          {"edges": e[:60], "pruned": r[:60], "maxlen": maxlen})
+            except Exception as ex:
+                pfail("greedy_prune", "C08", "probe:greedy_prune-error", f"probe error {ex!r}")
+            return res
+        return w
+
+    attach([(R, "_greedy_prune_partition")], f_gp)
+
+    orig_init = R.CoolerCoarsener.__init__
+    if not getattr(orig_init, "_verif_probe", False):
+        @functools.wraps(orig_init)
+        def init(self, *a, **k):
+            orig_init(self, *a, **k)
+            try:
+                _count("coarsener_init")
+                co = np.asarray(self.old_chrom_offset).astype(np.int64)
+                bo = np.asarray(self.old_bin1_offset).astype(np.int64)
+                f = int(self.factor)
+                allowed = set()
+                for ci in range(len(co) - 1):
+                    for b in range(int(co[ci]), int(co[ci + 1]), f):
+                        allowed.add(int(bo[b]))
+                allowed.add(int(bo[-1]))
+                edges = [int(x) for x in np.asarray(self.edges)]
+                bad = [x for x in edges if x not in allowed]
+                if bad or (edges and (edges[0] != 0 or edges[-1] != int(bo[-1]))):
+                    pfail("coarsener_init", "C08", "probe:coarse-row-split",
+                          f"chunk edges {bad[:10]} are not pixel offsets of a coarse-row start (factor {f})",
+                          {"edges": edges[:60], "factor": f, "chunksize": self.chunksize})
+                ctx = STATE["ctx"]
+                if ctx is not None:
+                    ctx.features["coarsen:spans>1" if len(edges) > 2 else "coarsen:spans<=1"] += 1
+            except Exception as ex:
+                pfail("coarsener_init", "C08", "probe:coarsener_init-error", f"probe error {ex!r}")
+        init._verif_probe = True
+        STATE["attached"].append((R.CoolerCoarsener, "__init__", orig_init))
+        R.CoolerCoarsener.__init__ = init
+
+
+def probe_coarsen_tasks(seed=0, max_ms=3.0):
+    """Wrap CoolerCoarsener.aggregate (runs in pool workers): task-dependent delay around the
+    whole task + an event (pid, span, t0, t1) for the schedule evidence."""
+    import cooler._reduce as R
+    from .sched import task_delay
+
+    orig = R.CoolerCoarsener.aggregate
+    if getattr(orig, "_verif_probe", False):
+        return
+
+    @functools.wraps(orig)
+    def agg(self, span):
+        t0 = time.monotonic_ns()
+        if os.getpid() != STATE["main_pid"]:
+            time.sleep(task_delay((int(span[0]), int(span[1])), seed, max_ms))
+        r = orig(self, span)
+        emit({"ev": "coarsen_task", "span": [int(span[0]), int(span[1])], "t0": t0, "t1": time.monotonic_ns(),
+              "worker": os.getpid() != STATE["main_pid"]})
+        return r
+    agg._verif_probe = True
+    STATE["attached"].append((R.CoolerCoarsener, "aggregate", orig))
+    R.CoolerCoarsener.aggregate = agg
